@@ -43,13 +43,15 @@ Tails == UNION {[1..n -> Steps] : n \in 0..2}
 Tails3 == {<<x, y, z>> : x \in Steps, y \in {Key("p"), Idx(FALSE, <<Each>>), Idx(FALSE, <<At(0)>>), Idx(TRUE, <<Each, At(0)>>)}, z \in {Key("p"), Key("q"), Idx(FALSE, <<At(0)>>), Pipe(<<PI("p", "string")>>)}}
 
 Seg(fn, steps) == [fn |-> fn, steps |-> steps]
-Doc(v, w) == O([x \in {"a", "c.d"} |-> IF x = "a" THEN v ELSE w])
+\* (keys that need quotes: one holding the step separator, one holding the continuation mark)
+Doc(v, w) == O([x \in {"a", "c.d", "c::d"} |-> IF x = "a" THEN v ELSE w])
 
 Sels ==
        {<<Seg("", <<Key("a")>> \o t)>> : t \in Tails \cup (IF Depth >= 3 THEN Tails3 ELSE {})}
   \cup {<<Seg(fn, <<Key("a")>> \o t)>> : fn \in {"mix", "distinct", "nosuch"}, t \in {x \in Tails : Len(x) <= 1}}
   \cup {<<Seg("", <<Key("a")>> \o t), Seg("", u)>> : t \in {x \in Tails : Len(x) <= 1}, u \in {x \in Tails : Len(x) = 1}}
   \cup {<<Seg("", <<Key("c.d")>> \o t)>> : t \in {x \in Tails : Len(x) <= 1}}
+  \cup {<<Seg("", <<Key("c::d")>> \o t)>> : t \in {x \in Tails : Len(x) <= 1}}
   \cup {<<Seg("", <<Key("zz")>> \o t)>> : t \in {x \in Tails : Len(x) <= 1}}
 
 \* histories: the result of a selector is a function of (document, selector text) - not of the
